@@ -91,6 +91,27 @@ Definition form_encode (form : list field) : bytes :=
 Record file_in := mkfile { f_name : bytes; f_chunks : list bytes; f_declared : option bytes }.
 Definition f_content (f : file_in) : bytes := concat (f_chunks f).
 
+(* ---------- runtime.NamedReader (client_request.go) and the name of an upload source ----------
+   What the caller hands to SetFileParam: a value of a type with its own Name method (FOwn: an os.File, whose
+   name is the path it was opened with, or any caller type), or the result of runtime.NamedReader (name, inner)
+   where inner is any reader: a plain one without a name (FPlain), one that has a name of its own, or the
+   result of an earlier NamedReader call. NamedReader ALWAYS wraps: the name asked for is the name of the result,
+   whatever inner is. f_name of a file is source_name of its source. *)
+Inductive fsource := FPlain | FOwn (name : bytes) | FNamed (name : bytes) (inner : fsource).
+Definition named_reader (name : bytes) (inner : fsource) : fsource := FNamed name inner.
+Definition source_name (s : fsource) : bytes :=
+  match s with FPlain => [] | FOwn n => n | FNamed n _ => n end.
+Definition source_has_name (s : fsource) : bool := match s with FPlain => false | _ => true end.
+(* a wrong NamedReader: an inner that already has a name is returned as it is *)
+Definition named_reader_keeping (name : bytes) (inner : fsource) : fsource :=
+  if source_has_name inner then inner else FNamed name inner.
+
+(* ---------- a reader payload and its read position ----------
+   The caller may have consumed a prefix of the reader (a magic number, a header line) or have positioned it
+   with Seek before handing it to SetBodyParam. The body is what is left to read from that position: buildHTTP
+   never repositions a payload. whole: everything the reader held; pos: how much was consumed. *)
+Definition reader_at (whole : bytes) (pos : nat) : bytes := skipn pos whole.
+
 Definition sniff_window : nat := 512.
 
 (* the bytes handed to http.DetectContentType.
